@@ -2,35 +2,16 @@ package main
 
 import (
 	"fmt"
-	"go/token"
 	"verif/checker/eng"
-	"golang.org/x/tools/go/ssa"
 )
 
 func main() {
 	p, err := eng.Load(eng.LoadConfig{})
 	if err != nil { panic(err) }
-	fn := p.Func("rag.(*OverlapGenerator).generateCharacterOverlap")
-	var sl *ssa.Slice
-	eng.Instrs(fn, false, func(in ssa.Instruction) { if s, ok := in.(*ssa.Slice); ok { sl = s } })
-	v := sl.Low
-	s := sl.X
-	m := eng.MustCross(fn, func(e eng.Edge) bool {
-		f, ok := eng.EdgeFact(e)
-		if !ok { return false }
-		if call, ok := f.Cond.(*ssa.Call); ok && f.Pos && eng.CalleeName(call) == "unicode/utf8.RuneStart" {
-			lk, ok := call.Call.Args[0].(*ssa.Lookup)
-			fmt.Printf("runestart arg %T ok=%v\n", call.Call.Args[0], ok)
-			if ok && lk.Index == v && eng.SameValue(lk.X, s) { return true }
-		}
-		if op, x, y, ok := f.Cmp(); ok {
-			if x == v {
-				if call, ok := y.(*ssa.Call); ok {
-					if bi, ok := call.Call.Value.(*ssa.Builtin); ok && bi.Name() == "len" && op == token.GEQ { return true }
-				}
-			}
-		}
-		return false
-	}, nil)
-	for _, b := range fn.Blocks { fmt.Println(b.Index, m[b]) }
+	fn := p.Func("tabula.(*Extractor).validateFormat")
+	for _, r := range eng.Returns(fn) {
+		v := eng.ReturnValues(r)[0]
+		nn, known := eng.ErrValueNonNil(v)
+		fmt.Printf("block %d: %v (%T) nonNil=%v known=%v\n", r.Block().Index, v, v, nn, known)
+	}
 }
